@@ -18,6 +18,7 @@ import (
 	"net/http"
 	"net/http/httptest"
 	"os"
+	"regexp"
 	"sort"
 	"strconv"
 	"strings"
@@ -36,6 +37,7 @@ import (
 	"github.com/honeycombio/refinery/sharder"
 	"github.com/honeycombio/refinery/transmit"
 	"github.com/honeycombio/refinery/types"
+	"github.com/honeycombio/refinery/verifharness/vkit"
 )
 
 // ---------------------------------------------------------------------------
@@ -243,9 +245,12 @@ type rtFake struct {
 	auth      map[string]rtAuthScript // by API key; missing => 200 with env "env-of-<key>"
 	authCalls []string
 	proxied   []rtSeenReq
-	script    rtUpstreamScript
+	script    rtUpstreamScript   // default answer for unhandled paths
+	queue     []rtUpstreamScript // consumed first, one per request
 	events    []rtFakeEvent
 	badBatch  []string
+	// plainAuth: treat /1/auth like any other path (record + scripted answer)
+	plainAuth bool
 }
 
 func rtNewFake() *rtFake {
@@ -269,7 +274,7 @@ func (f *rtFake) serve(w http.ResponseWriter, r *http.Request) {
 	body, _ := io.ReadAll(r.Body)
 	path := r.URL.Path
 	switch {
-	case path == "/1/auth" && r.Method == "GET":
+	case path == "/1/auth" && r.Method == "GET" && !f.plainAuth:
 		key := r.Header.Get("X-Honeycomb-Team")
 		f.mu.Lock()
 		f.authCalls = append(f.authCalls, key)
@@ -309,12 +314,32 @@ func (f *rtFake) serve(w http.ResponseWriter, r *http.Request) {
 	f.proxied = append(f.proxied, rtSeenReq{Method: r.Method, RequestURI: r.RequestURI, Proto: r.Proto, Host: r.Host,
 		Header: r.Header.Clone(), Body: body, RemoteAddr: r.RemoteAddr})
 	sc := f.script
+	if len(f.queue) > 0 {
+		sc = f.queue[0]
+		f.queue = f.queue[1:]
+	}
 	f.mu.Unlock()
+	// nothing but the scripted headers (no sniffed Content-Type, no Date)
+	w.Header()["Date"] = nil
+	w.Header()["Content-Type"] = nil
 	for _, kv := range sc.Header {
-		w.Header().Add(kv[0], kv[1])
+		w.Header()[http.CanonicalHeaderKey(kv[0])] = append(w.Header()[http.CanonicalHeaderKey(kv[0])], kv[1])
 	}
 	w.WriteHeader(sc.Status)
 	w.Write(sc.Body)
+}
+
+func (f *rtFake) push(sc ...rtUpstreamScript) {
+	f.mu.Lock()
+	f.queue = append(f.queue, sc...)
+	f.mu.Unlock()
+}
+
+func (f *rtFake) resetProxied() {
+	f.mu.Lock()
+	f.proxied = nil
+	f.queue = nil
+	f.mu.Unlock()
 }
 
 // serveBatch decodes what a real DirectTransmission sends, with decoders that
@@ -429,13 +454,23 @@ var rtNodeCounter int
 func rtStartNode(o rtNodeOpts) (*rtNode, error) {
 	rtNodeCounter++
 	n := &rtNode{Nonce: fmt.Sprintf("verif-%d-%d", os.Getpid(), rtNodeCounter)}
+	// reserve three distinct ports at the same time (closing one before asking
+	// for the next lets the kernel hand out the same port twice)
 	var ports [3]int
+	var held []net.Listener
 	for i := range ports {
-		p, err := rtFreePort()
+		l, err := net.Listen("tcp", rtIP()+":0")
 		if err != nil {
+			for _, h := range held {
+				h.Close()
+			}
 			return nil, fmt.Errorf("%w: no free port: %v", rtErrTiming, err)
 		}
-		ports[i] = p
+		held = append(held, l)
+		ports[i] = l.Addr().(*net.TCPAddr).Port
+	}
+	for _, h := range held {
+		h.Close()
 	}
 	ip := rtIP()
 	n.InAddr = net.JoinHostPort(ip, strconv.Itoa(ports[0]))
@@ -582,6 +617,12 @@ func rtBuildRequest(method, target, host string, hdr [][2]string, body []byte) [
 }
 
 func rtRawRoundTrip(addr string, req []byte, method string, timeout time.Duration) (*rtRawResp, error) {
+	return rtRawRoundTripOpt(addr, req, method, timeout, false)
+}
+
+// rtRawRoundTripOpt: halfClose shuts the sending side down after the request
+// bytes (a client that dies in the middle of a body whose Content-Length promised more).
+func rtRawRoundTripOpt(addr string, req []byte, method string, timeout time.Duration, halfClose bool) (*rtRawResp, error) {
 	c, err := net.DialTimeout("tcp", addr, timeout)
 	if err != nil {
 		return nil, err
@@ -591,6 +632,11 @@ func rtRawRoundTrip(addr string, req []byte, method string, timeout time.Duratio
 	local := c.LocalAddr().String()
 	if _, err := c.Write(req); err != nil {
 		return nil, err
+	}
+	if halfClose {
+		if tc, ok := c.(*net.TCPConn); ok {
+			tc.CloseWrite()
+		}
 	}
 	raw, err := io.ReadAll(c)
 	if err != nil && len(raw) == 0 {
@@ -653,6 +699,37 @@ func rtJSONDocs(b []byte) (docs []any, ok bool) {
 			return docs, false
 		}
 		docs = append(docs, v)
+	}
+}
+
+var (
+	rtZstdOnce sync.Once
+	rtZstdEnc  *zstd.Encoder
+)
+
+// rtZstd compresses with one shared encoder (creating one per case is what costs).
+func rtZstd(b []byte) []byte {
+	rtZstdOnce.Do(func() {
+		rtZstdEnc, _ = zstd.NewWriter(nil, zstd.WithEncoderConcurrency(1), zstd.WithLowerEncoderMem(true))
+	})
+	return rtZstdEnc.EncodeAll(b, nil)
+}
+
+func rtGzip(b []byte) []byte {
+	var buf bytes.Buffer
+	w := gzip.NewWriter(&buf)
+	w.Write(b)
+	w.Close()
+	return buf.Bytes()
+}
+
+var rtAddrRe = regexp.MustCompile(`127\.\d+\.\d+\.\d+(:\d+)?`)
+
+// rtScrub removes run-dependent addresses from violation details: rapid only
+// shrinks a failure whose message is reproducible.
+func rtScrub(res *vkit.Result) {
+	for i := range res.Violations {
+		res.Violations[i].Detail = rtAddrRe.ReplaceAllString(res.Violations[i].Detail, "<addr>")
 	}
 }
 
